@@ -114,9 +114,13 @@ Definition mem_str (s : string) (l : list string) : bool := existsb (String.eqb 
    primops a missing key is a value-dependent precondition.
    [Panic] (a caught Rust panic) and [Crash] (the interpreter process aborted, e.g. a native stack
    overflow) are failures of another property (C10: never a crash) and are value-dependent in the
-   cases seen; they are reported in the evidence but are not dynamic *type* errors. *)
+   cases seen; they are reported in the evidence but are not dynamic *type* errors.
+   [ShapeMismatch]: the interpreter returned a value whose *deep* shape does not inhabit the static
+   result type (a record field or enum case the type promised is missing, an element of the wrong
+   kind): checked by the translator on every result of an inhabiting operand vector. *)
 Definition type_error_classes : list string :=
-  ["TypeErr"; "NotAFunc"; "NonExhaustive"; "UnboundId"; "Internal"; "NotEnoughArgs"; "Unreadable"].
+  ["TypeErr"; "NotAFunc"; "NonExhaustive"; "UnboundId"; "Internal"; "NotEnoughArgs"; "Unreadable";
+   "ShapeMismatch"].
 
 Definition bad_class (op : string) (c : string) : bool :=
   mem_str c type_error_classes || (String.eqb c "FieldMissing" && String.eqb op "record/access").
